@@ -851,7 +851,7 @@ func checkTargetPlumbing(c *Ctx) {
 	ctors := map[string][2]int{"udp.NewUDPv4": {0, 1}, "tcp.NewTCPv4": {0, 1}, "traceroute.makeSackParams": {0, 1}}
 	n := 0
 	for _, f := range c.P.ModFuncs {
-		if !strings.HasPrefix(core.FuncName(f), "traceroute.runTracerouteOnce") {
+		if core.ShortPkg(core.FuncPkg(f)) != "traceroute" {
 			continue
 		}
 		for _, b := range f.Blocks {
@@ -867,13 +867,20 @@ func checkTargetPlumbing(c *Ctx) {
 				n++
 				for _, pa := range firstPath(f, b) {
 					env := core.NewEnv(c.P, pa)
-					addr := env.Term(call.Common().Args[idx[0]]).String()
-					port := env.Term(call.Common().Args[idx[1]]).String()
+					// in the frame of the per-run function (the call may sit in a closure or a helper of it)
+					at, ok1 := liftTerm(c, f, env.Term(call.Common().Args[idx[0]]), "traceroute.runTracerouteOnce", 0)
+					pt0, ok2 := liftTerm(c, f, env.Term(call.Common().Args[idx[1]]), "traceroute.runTracerouteOnce", 0)
+					if !ok1 || !ok2 {
+						R.Fail("R19.3", fmt.Sprintf("%s#target[%s]", core.FuncName(f), core.FuncName(call.Common().StaticCallee())), call.Pos(), core.FuncName(f), "a protocol constructor is called from a function that is not part of the per-run function: where its target comes from is not decided")
+						continue
+					}
+					addr := at.String()
+					port := pt0.String()
 					pt := "traceroute.parseTarget(param:params.Hostname, param:destinationPort, param:params.WantV6)#0"
 					pt2 := "traceroute.parseTarget(free:params.Hostname, free:destinationPort, free:params.WantV6)#0"
 					// inside closures the target is a captured variable
-					okA := strings.Contains(addr, "(netip.AddrPort).Addr(") && (strings.Contains(addr, pt) || strings.Contains(addr, pt2) || strings.Contains(addr, "free:target"))
-					okP := strings.Contains(port, "(netip.AddrPort).Port(") && (strings.Contains(port, pt) || strings.Contains(port, pt2) || strings.Contains(port, "free:target"))
+					okA := strings.Contains(addr, "(netip.AddrPort).Addr(") && (strings.Contains(addr, pt) || strings.Contains(addr, pt2))
+					okP := strings.Contains(port, "(netip.AddrPort).Port(") && (strings.Contains(port, pt) || strings.Contains(port, pt2))
 					key := fmt.Sprintf("%s#target[%s]", core.FuncName(f), core.FuncName(call.Common().StaticCallee()))
 					R.Check(okA && okP, "R19.3", key, call.Pos(), core.FuncName(f), "constructor receives parseTarget's address and port", "constructor receives address "+addr+" and port "+port+", not parseTarget's result")
 				}
@@ -882,25 +889,156 @@ func checkTargetPlumbing(c *Ctx) {
 	}
 	R.Floor("R19.3:constructor-calls", n, 3)
 	// the captured target really is parseTarget's result
-	f := c.P.Func("traceroute.runTracerouteOnce")
-	if f != nil {
-		cnt := 0
+	cnt := 0
+	for _, f := range c.P.ModFuncs {
+		if core.ShortPkg(core.FuncPkg(f)) != "traceroute" {
+			continue
+		}
 		for _, b := range f.Blocks {
 			for _, in := range b.Instrs {
-				if call, ok := in.(*ssa.Call); ok && calleeIs(call, "traceroute.parseTarget") {
-					cnt++
-					for _, pa := range firstPath(f, b) {
-						env := core.NewEnv(c.P, pa)
-						h := env.Term(call.Common().Args[0]).String()
-						p := env.Term(call.Common().Args[1]).String()
-						okc := h == "param:params.Hostname" && (p == "param:destinationPort" || p == "80")
-						R.Check(okc, "R19.3", fmt.Sprintf("traceroute.runTracerouteOnce#parseTarget[%s]", p), call.Pos(), core.FuncName(f), "parseTarget(Hostname, "+p+", WantV6)", "parseTarget is called with "+h+", "+p)
+				call, ok := in.(*ssa.Call)
+				if !ok || !calleeIs(call, "traceroute.parseTarget") {
+					continue
+				}
+				if !reachedOnlyFrom(c, f, "traceroute.runTracerouteOnce", map[*ssa.Function]bool{}) {
+					continue
+				}
+				cnt++
+				for _, pa := range firstPath(f, b) {
+					env := core.NewEnv(c.P, pa)
+					ht, ok1 := liftTerm(c, f, env.Term(call.Common().Args[0]), "traceroute.runTracerouteOnce", 0)
+					ptm, ok2 := liftTerm(c, f, env.Term(call.Common().Args[1]), "traceroute.runTracerouteOnce", 0)
+					h, p := ht.String(), ptm.String()
+					okc := ok1 && ok2 && h == "param:params.Hostname" && (p == "param:destinationPort" || p == "80")
+					R.Check(okc, "R19.3", fmt.Sprintf("traceroute.runTracerouteOnce#parseTarget[%s]", p), call.Pos(), core.FuncName(f), "parseTarget(Hostname, "+p+", WantV6)", "parseTarget is called with "+h+", "+p)
+				}
+			}
+		}
+	}
+	R.Floor("R19.3:parseTarget-calls", cnt, 2)
+}
+
+// ttlFieldParam: the index of the parameter of f that ends up, unchanged, in the field named fname of the object f builds –
+// stored by f itself or by a helper constructor that f hands the parameter to; -1 (and what is stored instead) otherwise.
+func ttlFieldParam(c *Ctx, f *ssa.Function, fname string, depth int) (int, string) {
+	i, path, what := ttlFieldOrigin(c, f, fname, depth)
+	if path != "" {
+		return -1, what
+	}
+	return i, what
+}
+
+// ttlFieldOrigin is ttlFieldParam's worker: the parameter may be a small by-value struct (the validated bounds) of which one
+// field is stored; path names that field.
+func ttlFieldOrigin(c *Ctx, f *ssa.Function, fname string, depth int) (int, string, string) {
+	if depth > 3 || f == nil {
+		return -1, "", ""
+	}
+	// value → (parameter index, field of it)
+	origin := func(v ssa.Value, path string) (int, string) {
+		v = c.P.Def(v)
+		if path != "" {
+			// the field `path` of a struct value built here: a literal whose field is assigned once
+			ld, ok := v.(*ssa.UnOp)
+			if ok && ld.Op == token.MUL {
+				if al, ok := ld.X.(*ssa.Alloc); ok {
+					var val ssa.Value
+					n := 0
+					for _, r := range *al.Referrers() {
+						if fa, ok := r.(*ssa.FieldAddr); ok && core.FieldName(fa) == path {
+							for _, r2 := range *fa.Referrers() {
+								if st, ok := r2.(*ssa.Store); ok && st.Addr == ssa.Value(fa) {
+									val = st.Val
+									n++
+								}
+							}
+						}
+					}
+					if n == 1 {
+						v = c.P.Def(val)
+						path = ""
 					}
 				}
 			}
 		}
-		R.Floor("R19.3:parseTarget-calls", cnt, 2)
+		sub := ""
+		if ld, ok := v.(*ssa.UnOp); ok && ld.Op == token.MUL {
+			// a field of a by-value struct parameter (spilled to a local)
+			if fa, ok := ld.X.(*ssa.FieldAddr); ok {
+				if al, ok := fa.X.(*ssa.Alloc); ok {
+					if st := core.SingleStore(al); st != nil {
+						v = st.Val
+						sub = core.FieldName(fa)
+					}
+				}
+			}
+		}
+		if fl, ok := v.(*ssa.Field); ok {
+			v = c.P.Def(fl.X)
+			sub = fl.X.Type().Underlying().(*types.Struct).Field(fl.Field).Name()
+		}
+		if path != "" && sub != "" {
+			return -1, ""
+		}
+		if sub == "" {
+			sub = path
+		}
+		for i, p := range f.Params {
+			if v == ssa.Value(p) {
+				return i, sub
+			}
+		}
+		return -1, ""
 	}
+	found, fpath, what := -1, "", ""
+	note := func(i int, p string) bool {
+		if found >= 0 && (found != i || fpath != p) {
+			return false
+		}
+		found, fpath = i, p
+		return true
+	}
+	for _, b := range f.Blocks {
+		for _, in := range b.Instrs {
+			switch x := in.(type) {
+			case *ssa.Store:
+				fa, ok := x.Addr.(*ssa.FieldAddr)
+				if !ok || core.FieldName(fa) != fname {
+					continue
+				}
+				i, p := origin(x.Val, "")
+				if i < 0 {
+					return -1, "", x.Val.String()
+				}
+				if !note(i, p) {
+					return -1, "", "several values"
+				}
+			case *ssa.Call:
+				g := x.Common().StaticCallee()
+				if g == nil || !core.InModule(g) || len(g.Blocks) == 0 || x.Common().IsInvoke() {
+					continue
+				}
+				gi, gp, _ := ttlFieldOrigin(c, g, fname, depth+1)
+				if gi < 0 || gi >= len(x.Common().Args) {
+					continue
+				}
+				i, p := origin(x.Common().Args[gi], gp)
+				if i < 0 {
+					return -1, "", x.Common().Args[gi].String()
+				}
+				if !note(i, p) {
+					return -1, "", "several values"
+				}
+			}
+		}
+	}
+	if found >= 0 {
+		what = f.Params[found].Name()
+		if fpath != "" {
+			what += "." + fpath
+		}
+	}
+	return found, fpath, what
 }
 
 // checkTTLPlumbing is R19.4.
@@ -910,7 +1048,7 @@ func checkTTLPlumbing(c *Ctx) {
 	ctors := map[string][2]int{"udp.NewUDPv4": {2, 3}, "tcp.NewTCPv4": {2, 3}, "traceroute.makeSackParams": {2, 3}}
 	n := 0
 	for _, f := range c.P.ModFuncs {
-		if !strings.HasPrefix(core.FuncName(f), "traceroute.runTracerouteOnce") {
+		if core.ShortPkg(core.FuncPkg(f)) != "traceroute" {
 			continue
 		}
 		for _, b := range f.Blocks {
@@ -926,8 +1064,12 @@ func checkTTLPlumbing(c *Ctx) {
 				n++
 				for _, pa := range firstPath(f, b) {
 					env := core.NewEnv(c.P, pa)
-					mn := env.Term(call.Common().Args[idx[0]])
-					mx := env.Term(call.Common().Args[idx[1]])
+					mn, ok1 := liftTerm(c, f, env.Term(call.Common().Args[idx[0]]), "traceroute.runTracerouteOnce", 0)
+					mx, ok2 := liftTerm(c, f, env.Term(call.Common().Args[idx[1]]), "traceroute.runTracerouteOnce", 0)
+					if !ok1 || !ok2 {
+						R.Fail("R19.4", fmt.Sprintf("%s#ttl-args[%s]", core.FuncName(f), core.FuncName(call.Common().StaticCallee())), call.Pos(), core.FuncName(f), "a protocol constructor is called from a function that is not part of the per-run function: where its TTL bounds come from is not decided")
+						continue
+					}
 					okc := ttlOrigin(c, mn, 0) == "MinTTL" && ttlOrigin(c, mx, 0) == "MaxTTL"
 					R.Check(okc, "R19.4", fmt.Sprintf("%s#ttl-args[%s]", core.FuncName(f), core.FuncName(call.Common().StaticCallee())), call.Pos(), core.FuncName(f), "TTL bounds passed through conversions only", "TTL bounds are passed as "+mn.String()+" / "+mx.String())
 				}
@@ -942,27 +1084,10 @@ func checkTTLPlumbing(c *Ctx) {
 			R.Fail("R19.4", name+"#anchor", 0, "", "anchor "+name+" no longer resolves")
 			continue
 		}
-		stored := map[string]string{}
-		for _, b := range f.Blocks {
-			for _, in := range b.Instrs {
-				st, ok := in.(*ssa.Store)
-				if !ok {
-					continue
-				}
-				if fa, ok := st.Addr.(*ssa.FieldAddr); ok {
-					fname := fa.X.Type().Underlying().(*types.Pointer).Elem().Underlying().(*types.Struct).Field(fa.Field).Name()
-					if fname == "MinTTL" || fname == "MaxTTL" {
-						if p, ok := st.Val.(*ssa.Parameter); ok {
-							stored[fname] = p.Name()
-						} else {
-							stored[fname] = st.Val.String()
-						}
-					}
-				}
-			}
-		}
-		okc := stored["MinTTL"] == f.Params[idx[0]].Name() && stored["MaxTTL"] == f.Params[idx[1]].Name()
-		R.Check(okc, "R19.4", name+"#stores", f.Pos(), name, "MinTTL/MaxTTL fields are the constructor's parameters unchanged", fmt.Sprintf("constructor stores MinTTL=%s MaxTTL=%s", stored["MinTTL"], stored["MaxTTL"]))
+		mnI, mnS := ttlFieldParam(c, f, "MinTTL", 0)
+		mxI, mxS := ttlFieldParam(c, f, "MaxTTL", 0)
+		okc := mnI == idx[0] && mxI == idx[1]
+		R.Check(okc, "R19.4", name+"#stores", f.Pos(), name, "MinTTL/MaxTTL fields are the constructor's parameters unchanged", fmt.Sprintf("constructor stores MinTTL=%s MaxTTL=%s", mnS, mxS))
 	}
 	// (c) entry points hand the engine the config's bounds
 	for _, e := range []string{"(*udp.UDPv4).Traceroute", "(*tcp.TCPv4).Traceroute"} {
